@@ -34,7 +34,12 @@ SYNTAXES = {
     "brackets": dict(bs="[%", be="%]", vs="[[", ve="]]", cs="[#", ce="#]"),
     "three": dict(bs="<??", be="??>", vs="<?=", ve="=?>", cs="<?#", ce="#?>"),
     "ops": dict(bs="@@", be="@@", vs="$(", ve=")", cs="/*", ce="*/"),
+    # block end strings that look like closing brackets: the lexer must only end the tag when brackets are balanced
+    "blockbr": dict(bs="[[", be="]]", vs="${", ve="}", cs="[#", ce="#]"),
+    "parens": dict(bs="((", be="))", vs="{{", ve="}}", cs="(#", ce="#)"),
+    "latex": dict(bs="\\BLOCK{", be="}", vs="\\VAR{", ve="}", cs="\\#{", ce="}"),
 }
+_ORIGINAL_SIX = ["default", "php", "erb", "brackets", "three", "ops"]
 SYN_NAMES = list(SYNTAXES)
 LS_PREFIXES = [None, "#", "%%", ">>>"]
 LC_PREFIXES = [None, "##"]
@@ -66,9 +71,11 @@ def subst(body, syn):
 
 
 # look-alikes of every configuration, padded so that junctions cannot create a delimiter
+_TRIPLES = (("bs", "be"), ("vs", "ve"), ("cs", "ce"))
 FOREIGN = (
-    [" %s f %s " % (d[a], d[b]) for d in SYNTAXES.values() for a, b in (("bs", "be"), ("vs", "ve"), ("cs", "ce"))]
-    + ["\n# f\n", "\n## f\n", "\n%% f\n", "\n>>> f\n", " \n  # endif\n", "a ## f\n"]
+    [" %s f %s " % (SYNTAXES[n][a], SYNTAXES[n][b]) for n in _ORIGINAL_SIX for a, b in _TRIPLES]  # 0-17 (indices are used by probes)
+    + ["\n# f\n", "\n## f\n", "\n%% f\n", "\n>>> f\n", " \n  # endif\n", "a ## f\n"]      # 18-23
+    + [" %s f %s " % (d[a], d[b]) for n, d in SYNTAXES.items() if n not in _ORIGINAL_SIX for a, b in _TRIPLES]
 )
 FOREIGN_INLINE = [k for k, a in enumerate(FOREIGN) if "\n" not in a]
 
@@ -200,15 +207,16 @@ MODS2 = ["", "-"]
 PADS = ["", " ", " ", "  ", "\t"]
 PADS_ML = PADS + ["\n", " \n ", "\r\n", "\r"]
 
-VAR_EXPRS = [("v", "V"), ("'q'", "q"), ("1", "1"), ("w", " W\n "), ("v|lower", "v"), ("[7, 8][0]", "7"),
+VAR_EXPRS = [("[[7, 8]][0][0]", "7"), ("{'k': {'j': 3}}['k']['j']", "3"), ("((4, 5))[1]", "5"), ("v", "V"), ("'q'", "q"), ("1", "1"), ("w", " W\n "), ("v|lower", "v"), ("[7, 8][0]", "7"),
              ("{'k': 3}['k']", "3"), ("(4)", "4"), ("v ~ 'y'", "Vy"), ("7 - 2", "5"), ("u", "\r\n")]
 VAR_EXPRS_ML = [("[7,\n 8][0]", "7"), ("v ~\n'y'", "Vy"), ("{'k':\r\n3}['k']", "3"), ("v\n|lower", "v")]
 VAR_EXPRS_LEXONLY = [("'a\nb'", None), ("[\n\n]", None), ("v\r|upper", None)]
 CONTEXT = {"v": "V", "w": " W\n ", "u": "\r\n"}
 
-BLOCK_STMTS = ["set z = 1", "set z = [1, 2]", "set z = v", "set z = {'a': (1, 2)}"]
+BLOCK_STMTS = ["set z = 1", "set z = [1, 2]", "set z = v", "set z = {'a': (1, 2)}", "set z = [[1, 2], [3]]", "set d = {'a': {'b': 1}}",
+               "set z = ((1, 2), (3,))", "set z = {'a': [1, (2, 3)]}['a'][1]"]
 BLOCK_STMTS_ML = ["set z =\n 1", "set z = [1,\n\n2]", "set z = 'a\nb'", "set\r\nz = 1", "set z = (1,\r2)"]
-BLOCK_PAIRS = [("if true", "endif"), ("if v", "endif"), ("for q in [1]", "endfor"), ("with", "endwith"),
+BLOCK_PAIRS = [("for r in [[1, 2]]", "endfor"), ("if {'a': {'b': 1}}", "endif"), ("with z = ((1, 2))", "endwith"), ("if true", "endif"), ("if v", "endif"), ("for q in [1]", "endfor"), ("with", "endwith"),
                ("with z = 2", "endwith"), ("if v == 'V'", "endif")]
 BLOCK_PAIRS_ML = [("if true\n", "endif"), ("for q in [\n1]", "endfor"), ("with z =\n\n2", "\nendwith")]
 
@@ -279,8 +287,8 @@ def skeletons(alpha, kinds=("text", "text", "var", "block", "comment", "raw", "p
 
 INDENTS_PLAIN = ["", "", " ", "  ", "\t", " \t", "    "]
 INDENTS_VT = INDENTS_PLAIN + ["\x0b "]  # \v is accepted before a line-statement prefix; lstrip_blocks of \v is not documented
-LINE_STMTS = ["set z = 1", "set z = [1, 2]", "set z = v"]
-LINE_PAIRS = [("if true", "endif"), ("if v", "endif"), ("for q in [1]", "endfor"), ("with", "endwith"), ("if v:", "endif"),
+LINE_STMTS = ["set z = 1", "set z = [1, 2]", "set z = v", "set z = [[1, 2], [3]]", "set d = {'a': {'b': 1}}", "set z = ((1, 2), (3,))"]
+LINE_PAIRS = [("for r in [[1, 2]]", "endfor"), ("if {'a': {'b': 1}}", "endif"), ("if true", "endif"), ("if v", "endif"), ("for q in [1]", "endfor"), ("with", "endwith"), ("if v:", "endif"),
               ("for q in [1]:", "endfor")]
 LINE_COMMENT_BODIES = [" c ", " note", "c", " a b ", " x.y ", " f(1) "]
 HWS = ["", " ", "  ", "\t", " \x0c", "\xa0"]
